@@ -188,10 +188,11 @@ type chainSpec struct {
 	events  bool
 	txs     bool
 	paramAt int64
+	uniq    bool // every transaction distinct (the kv tx index keeps one record per hash)
 }
 
 func (s chainSpec) key() string {
-	return fmt.Sprintf("%d/%d/%d/%v/%v/%d", s.seed, s.n, s.nv, s.events, s.txs, s.paramAt)
+	return fmt.Sprintf("%d/%d/%d/%v/%v/%d/%v", s.seed, s.n, s.nv, s.events, s.txs, s.paramAt, s.uniq)
 }
 
 type chain struct {
@@ -282,8 +283,15 @@ func buildChain(spec chainSpec) *chain {
 	for h := int64(1); h <= int64(spec.n); h++ {
 		var txs []types.Tx
 		if spec.txs {
-			for k := r.Intn(5); k > 0; k-- {
-				txs = append(txs, genTx(r))
+			for k := r.Intn(6); k > 0; k-- {
+				tx := genTx(r)
+				if spec.uniq {
+					tx = types.Tx(fmt.Sprintf("%s_%d.%d", tx, h, k))
+					if r.Intn(10) == 0 {
+						tx = types.Tx(fmt.Sprintf("junk_%d.%d", h, k))
+					}
+				}
+				txs = append(txs, tx)
 			}
 		}
 		c.txsAt[h] = txs
